@@ -106,6 +106,44 @@ def split_resets(lines):
     return runs
 
 
+def conc_part(chk, rng, thorough, wd, prefix="conc"):
+    """Real threads racing on the handles of one task, validated against Task_Trace.tla (also used by C05: two threads
+    polling one task at once is rejected by Safe, or kills the harness process)."""
+    scripts = taskdefs.SCRIPTS
+    nprog = 40 if thorough else 10
+    rep = 200 if thorough else 40
+    for name, script in sorted(scripts.items()):
+        for wp in (True, False):
+            progs = []
+            for _ in range(nprog):
+                nt = rng.choice((2, 2, 3))
+                prog = []
+                for ti in range(nt):
+                    ops = [rng.choice(OPS if wp else OPS[:8]) for _ in range(rng.randint(2, 4))]
+                    if ti == 0:
+                        ops = ["run"] + ops
+                    prog.append(ops)
+                progs.append(prog)
+            tag = f"{prefix}_{name}_{int(wp)}"
+            lines, err = harness(dict(mode="conc", script=script, with_promise=wp, programs=progs, repeat=rep), wd, tag)
+            runs = split_resets(lines)
+            if err:
+                chk.violation(f"the harness process died while real threads raced on the handles of a task ({name}): {err}",
+                              dict(engine="task", script=script, with_promise=wp, last=runs[-1] if runs else None),
+                              signature=f"conccrash:{name}:{wp}")
+            runs = [r for r in runs if r and r[-1].get("ev") == "final"]
+            acc, rej, st = validate(script, wp, ["t1", "t2", "t3"], runs, wd, tag)
+            chk.add_trace_stats(f"real threads [{name}, promise={wp}]", acc + len(rej), st)
+            chk.evaluations += len(runs)
+            for (r, k, ev, reason) in rej:
+                chk.violation(f"execution of real threads on a task ({name}, promise={wp}) is not a behaviour of "
+                              f"Task.tla: {reason} at event {k}: {json.dumps(ev)}",
+                              dict(engine="task", script=script, with_promise=wp, trace=r[:k + 1]),
+                              signature=f"conc:{name}:{wp}:{reason}:{json.dumps(ev)}")
+            if runs:
+                chk.sample(dict(kind="real threads", script=name, trace=runs[len(runs) // 2][:16]))
+
+
 def run(prop, tier, seed):
     chk = Check(prop, tier, seed)
     rng = random.Random(seed)
@@ -167,38 +205,7 @@ def run(prop, tier, seed):
                 chk.sample(dict(kind="sequential handle operations", script=name, with_promise=wp,
                                 history=beh[len(beh) // 2]))
     # 3. real threads racing on the handles of one task
-    nprog = 40 if thorough else 10
-    rep = 200 if thorough else 40
-    for name, script in sorted(scripts.items()):
-        for wp in (True, False):
-            progs = []
-            for _ in range(nprog):
-                nt = rng.choice((2, 2, 3))
-                prog = []
-                for ti in range(nt):
-                    ops = [rng.choice(OPS if wp else OPS[:8]) for _ in range(rng.randint(2, 4))]
-                    if ti == 0:
-                        ops = ["run"] + ops
-                    prog.append(ops)
-                progs.append(prog)
-            tag = f"conc_{name}_{int(wp)}"
-            lines, err = harness(dict(mode="conc", script=script, with_promise=wp, programs=progs, repeat=rep), wd, tag)
-            runs = split_resets(lines)
-            if err:
-                chk.violation(f"the harness process died while real threads raced on the handles of a task ({name}): {err}",
-                              dict(engine="task", script=script, with_promise=wp, last=runs[-1] if runs else None),
-                              signature=f"conccrash:{name}:{wp}")
-            runs = [r for r in runs if r and r[-1].get("ev") == "final"]
-            acc, rej, st = validate(script, wp, ["t1", "t2", "t3"], runs, wd, tag)
-            chk.add_trace_stats(f"real threads [{name}, promise={wp}]", acc + len(rej), st)
-            chk.evaluations += len(runs)
-            for (r, k, ev, reason) in rej:
-                chk.violation(f"execution of real threads on a task ({name}, promise={wp}) is not a behaviour of "
-                              f"Task.tla: {reason} at event {k}: {json.dumps(ev)}",
-                              dict(engine="task", script=script, with_promise=wp, trace=r[:k + 1]),
-                              signature=f"conc:{name}:{wp}:{reason}:{json.dumps(ev)}")
-            if runs:
-                chk.sample(dict(kind="real threads", script=name, trace=runs[len(runs) // 2][:16]))
+    conc_part(chk, rng, thorough, wd)
     chk.exhaustive = True
     chk.assumptions = TRUSTED + [
         "interleaving (sequentially consistent) semantics; the memory orderings of the state word are not decided",
